@@ -98,20 +98,23 @@ def specs(tier):
 SPECS = {"quick": {s[0]: s for s in specs("quick")}, "thorough": {s[0]: s for s in specs("thorough")}}
 
 
-def build_frame(hx, spec):
+def build_frame(hx, spec, pfx=""):
     name, cls, svc, op1, op2, endian, tpl = spec
-    rel = hx.bit("reliable")
+    rel = hx.bit(pfx + "reliable")
     if isinstance(op1, str):                 # TMP: bit7 = confirmed (symbolic), bit6 = has_option (concrete per case)
-        conf = hx.bit("confirmed")
+        conf = hx.bit(pfx + "confirmed")
         op1 = conf * 128 + (64 if op1 == "flags1" else 0)
     n = len(tpl)
     ln = [n >> 8, n & 0xFF] if endian == "big" else [n & 0xFF, n >> 8]
-    pay = [hx.int(8, "p[%d]" % i) if t is None else t for i, t in enumerate(tpl)]
-    return bytes([svc + rel * 128, op1, op2] + ln + pay + [hx.int(8, "cs"), 3])
+    pay = [hx.int(8, pfx + "p[%d]" % i) if t is None else t for i, t in enumerate(tpl)]
+    return bytes([svc + rel * 128, op1, op2] + ln + pay + [hx.int(8, pfx + "cs"), 3])
 
 
 def hdap_obligations(hx, x, tag, endian):
-    b = x.as_bytes()
+    st, b = hx.guard(x.as_bytes)
+    hx.prove(st == "ok", "%s: serialising the parsed PDU does not fail (%s: %s)" % (tag, type(b).__name__ if st == "exc" else "", b if st == "exc" else ""))
+    if st != "ok":
+        return None
     n = len(b)
     pay = x.get_payload()
     hx.prove(n == 7 + len(pay), "%s: 7 framing octets around the payload" % tag)
@@ -149,6 +152,8 @@ def h_hdap(hx, name, tier):
         return
     hx.prove(x is not None and isinstance(x, cls), "%s: dispatched to %s" % (name, cls.__name__))
     b = hdap_obligations(hx, x, name, endian)
+    if b is None:
+        return
     q = HDAP.from_bytes(b)
     hx.prove(q is not None and q.as_bytes() == b, "%s: parse(serialise(x)) serialises to the same bytes" % name)
     fields_equal(hx, x, q, name, "after serialise -> parse")
@@ -176,6 +181,19 @@ def h_hdap(hx, name, tier):
     hx.prove(hp.checksum_correct, "%s in HRNP: checksum_correct after re-parse" % name)
     hx.prove(hp.as_bytes() == hb, "%s in HRNP: re-encodes to the same bytes" % name)
     hx.prove(AND(hp.source == src, hp.destination == dst, hp.packet_number == pn, hp.block_number == blk), "%s in HRNP: header fields survive" % name)
+    # a second, independent PDU of the same opcode parsed afterwards: it re-encodes to ITS canonical bytes and the first one is unaffected
+    # (PDUs must not share state, e.g. through a mutable default argument)
+    spec2 = spec
+    if name.startswith(("RCP-StatusChangeNotificationRequest", "RCP-BroadcastStatusConfigurationRequest")):
+        # dict-valued payloads: a symbolic second frame squares the number of paths (measured 1,200 paths / 250 s); the second frame is concrete here
+        spec2 = spec[:6] + ([0 if t is None else t for t in tpl],)
+    st2, y = hx.guard(HDAP.from_bytes, build_frame(hx, spec2, "second."))
+    if st2 == "ok" and y is not None:
+        yb = y.as_bytes()
+        y2 = HDAP.from_bytes(yb)
+        hx.prove(y2 is not None and y2.as_bytes() == yb, "%s: a second PDU parsed afterwards re-encodes equally" % name)
+        hx.prove(len(y.get_payload()) <= len(tpl), "%s: a second PDU parsed afterwards carries no more payload than its frame had" % name)
+        hx.prove(x.as_bytes() == b, "%s: the first PDU still serialises to the same bytes after another one was parsed" % name)
     hx.cover("ok")
 
 
@@ -200,7 +218,10 @@ def h_hstrp(hx, name, tier, nopts, optlen):
     hx.prove(pb[len(pb) - len(b):] == b, "HSTRP(%s): application payload carried unchanged after %d options" % (name, nopts))
     hx.prove(len(pb) == 6 + nopts * (2 + optlen) + len(b), "HSTRP: total length")
     if nopts:                                 # an option list is only parseable when there is at least one option (has_next is read from the first octet)
-        q = HSTRP.from_bytes(pb)
+        stq, q = hx.guard(HSTRP.from_bytes, pb)
+        hx.prove(stq == "ok", "HSTRP(%s) with %d options of %d octets: the serialised datagram parses (%s: %s)" % (name, nopts, optlen, type(q).__name__ if stq == "exc" else "", q if stq == "exc" else ""))
+        if stq != "ok":
+            return
         hx.prove(q is not None and q.as_bytes() == pb, "HSTRP(%s) with %d options of %d octets: parse -> serialise gives the same bytes" % (name, nopts, optlen))
         hx.prove(AND(q.sn == sn, len(q.options.options) == nopts), "HSTRP: sequence number and option count survive")
         hx.prove(q.payload is not None and q.payload.as_bytes() == b, "HSTRP: nested application PDU re-encodes equally")
@@ -217,6 +238,6 @@ def cases(tier, seed):
         hs += [("RRS-RadioRegistrationRequest", 3, 1), ("LP-StandardRequest", 2, 4), ("RCP-CallRequest-5", 3, 0), ("TMP-SendGroupMessageAck-0", 2, 1)]
     for name, n, l in hs:
         if name in SPECS[tier]:
-            out.append(Case("hstrp-%s-%dx%d" % (name, n, l), "h_hstrp", dict(name=name, tier=tier, nopts=n, optlen=l), budget_s=600, opts=dict(max_paths=3000),
+            out.append(Case("hstrp-%s-%dx%d" % (name, n, l), "h_hstrp", dict(name=name, tier=tier, nopts=n, optlen=l), budget_s=1200, opts=dict(max_paths=40000),
                             bounds="HSTRP around %s with %d options of %d symbolic octets, type bits and sequence number symbolic" % (name, n, l)))
     return out
